@@ -4,6 +4,7 @@
 from __future__ import absolute_import, division
 import re
 from .CommonMixin import CommonMixin
+from .GcodeParser import formatNumber
 
 # Regular expression for extracting the parameters from a Gcode command
 GCODE_PARAMS_REGEX = re.compile("^[A-Za-z][0-9]+(?:\\.[0-9]+)?\\s*(.*)$")
@@ -163,7 +164,7 @@ class RetractionState(CommonMixin):
 
             returnCommands.append(
                 # Set logical extruder position
-                "G92 E{e}".format(e=eAxis.nativeToLogical())
+                "G92 E{e}".format(e=formatNumber(eAxis.nativeToLogical()))
             )
 
             eAxis.current -= amount
@@ -171,8 +172,8 @@ class RetractionState(CommonMixin):
             # Use "G1" over "G0", since an extrusion amount is being supplied
             returnCommands.append(
                 "G1 F{f} E{e}".format(
-                    e=eAxis.nativeToLogical(),
-                    f=self.feedRate / eAxis.unitMultiplier
+                    e=formatNumber(eAxis.nativeToLogical()),
+                    f=formatNumber(self.feedRate / eAxis.unitMultiplier)
                 )
             )
 
